@@ -427,4 +427,102 @@ theorem foldl_snoc {α : Type} (xs init : List α) : xs.foldl (fun s x => s ++ [
   | nil => simp
   | cons x xs ih => simp [ih]
 
+/-! ### 6. the generated kernel -/
+
+theorem loGet_map_loSrc (extra : List (Scaffold × Option (Fragment × List Gap))) (r : Nat) :
+    PyRt.loGet (extra.map loSrc) r = loSrc (extra.getD r dfltLo) := by
+  unfold PyRt.loGet
+  simp only [List.getD_eq_getElem?_getD, List.getElem?_map]
+  cases extra[r]? <;> rfl
+
+theorem loSrc_fst (e : Scaffold × Option (Fragment × List Gap)) : (loSrc e).1 = e.1 := rfl
+
+/-- `obj.append_scaffold(othr, gap)` -/
+theorem append_scaffold_eq (s othr : Scaffold) (gap : Option Row) :
+    Gen.Imp.Scaffold_append_scaffold s othr gap = .ok { s with rows := ImpSmall.appendRowsRow s.rows othr.rows gap } := by
+  rw [C07.append_scaffold_is_source, ImpSmall.appendRowsRow_eq]
+  cases gap <;> rfl
+
+theorem appendRowsRow_none (rows othr : List Row) : ImpSmall.appendRowsRow rows othr none = rows ++ othr := rfl
+
+/-- `gaps_before_leftover` on a left-over of the model as the source stores it -/
+theorem gaps_before_leftover_loSrc (built : Scaffold) (e : Scaffold × Option (Fragment × List Gap)) (jg : Option Gap) :
+    Gen.Imp.BuildAssembly_gaps_before_leftover built (loSrc e).2 jg = .ok (gapsBeforeLeftover jg built.rows e.2) :=
+  C07.gaps_before_leftover_is_source built e.2 jg
+
+theorem bsSet_rows_get (heap : List Scaffold) (r : Nat) (add : List Row → List Row) :
+    PyRt.bsSet heap r (fun _ => { PyRt.bsGet heap r with rows := add (PyRt.bsGet heap r).rows })
+      = PyRt.bsSet heap r (fun sc => { sc with rows := add sc.rows }) :=
+  bsSet_const_get heap r (fun sc => { sc with rows := add sc.rows })
+
+/-- the left-over branch on the arena: the gap rows (computed from the object as it was) added, then the rows of the left-over -/
+theorem bsSet_lo (heap : List Scaffold) (r : Nat) (gbf : List Row → List Row) (X : List Row) :
+    PyRt.bsSet (PyRt.bsSet heap r (fun sc => { sc with rows := sc.rows ++ gbf (PyRt.bsGet heap r).rows })) r
+        (fun _ => { PyRt.bsGet (PyRt.bsSet heap r (fun sc => { sc with rows := sc.rows ++ gbf (PyRt.bsGet heap r).rows })) r with
+          rows := (PyRt.bsGet (PyRt.bsSet heap r (fun sc => { sc with rows := sc.rows ++ gbf (PyRt.bsGet heap r).rows })) r).rows ++ X })
+      = PyRt.bsSet heap r (fun sc => { sc with rows := sc.rows ++ gbf sc.rows ++ X }) := by
+  rw [bsSet_rows_get _ _ (fun built => built ++ X), bsSet_bsSet]
+  refine (bsSet_const_get heap r _).symm.trans ?_
+  refine ((bsSet_const_get heap r (fun sc => { sc with rows := sc.rows ++ gbf sc.rows ++ X })).symm.trans ?_).symm
+  rfl
+
+/-- the translated `scaffolds_fused_by_name`, for ANY list `self.scaffolds` (over left-overs of the model): never raises; the fold of
+    `stepSrc`; the generator yields the dict values in order -/
+theorem fused_eq_fold (store : List Res) (extra : List (Scaffold × Option (Fragment × List Gap))) (jg : Option Gap)
+    (refs : List PyRt.BuiltRef) :
+    Gen.Imp.BuildAssembly_scaffolds_fused_by_name store (extra.map loSrc) jg refs
+      = .ok (store, (refs.foldl (fun s x => stepSrc store extra jg x s) ([], [], jg.map Row.gap)).2.1,
+          (refs.foldl (fun s x => stepSrc store extra jg x s) ([], [], jg.map Row.gap)).1.map (·.2)) := by
+  unfold Gen.Imp.BuildAssembly_scaffolds_fused_by_name
+  dsimp only
+  rw [forIn_fuse (stepSrc store extra jg) (extra.map loSrc) _ ?hb refs]
+  case hb =>
+    intro x dict heap gap
+    cases x with
+    | res sid =>
+      rw [stepSrc_res_eq]
+      simp only [PyRt.brefView, Bool.not_not]
+      by_cases h : (getRes store sid).rows.isEmpty
+      · rw [if_pos h, if_pos h]
+      · rw [if_neg h, if_neg h]
+        simp only [C14.to_scaffold_is_source_full, append_scaffold_eq, ImpSmall.ok_bind]
+        rw [bsSet_rows_get _ _ (fun built => ImpSmall.appendRowsRow built (getRes store sid).toScaffoldRows gap)]
+        rfl
+    | lo r =>
+      rw [stepSrc_lo_eq]
+      simp only [PyRt.brefView, loGet_map_loSrc, Bool.not_not, loSrc_fst]
+      generalize he : extra.getD r dfltLo = e
+      by_cases h : e.1.rows.isEmpty
+      · rw [if_pos h, if_pos h]
+      · rw [if_neg h, if_neg h]
+        simp only [gaps_before_leftover_loSrc, ImpSmall.ok_bind]
+        rw [forIn_addRows _ ?hb2]
+        case hb2 => intros; rfl
+        simp only [ImpSmall.ok_bind, loGet_map_loSrc, he, loSrc_fst, append_scaffold_eq, appendRowsRow_none]
+        rw [bsSet_lo _ _ (fun built => gapsBeforeLeftover jg built e.2)]
+        rfl
+  simp only [ImpSmall.ok_bind]
+  rw [ImpSmall.forIn_pure (fun x s => s ++ [x]) _ (fun _ _ => rfl)]
+  simp only [ImpSmall.ok_bind, foldl_snoc, List.nil_append]
+
+theorem dictOf_values (acc : List (FKey × Scaffold)) : (dictOf acc).map (·.2) = List.range acc.length := by
+  unfold dictOf
+  rw [dictFrom_values, List.range_eq_range']
+
+/-- dereferencing all references of an arena in order gives the arena -/
+theorem range_map_bsGet (heap : List Scaffold) : (List.range heap.length).map (PyRt.bsGet heap) = heap :=
+  range_map_getD heap _
+
+/-- all OverlapResults before all left-overs: the arena holds the model's scaffolds and the references are yielded in order -/
+theorem fused_ordered (store : List Res) (extra : List (Scaffold × Option (Fragment × List Gap))) (jg : Option Gap)
+    (sids rs : List Nat) :
+    Gen.Imp.BuildAssembly_scaffolds_fused_by_name store (extra.map loSrc) jg
+        (sids.map PyRt.BuiltRef.res ++ rs.map PyRt.BuiltRef.lo)
+      = .ok (store, (fuseRefs store extra jg (sids.map .res ++ rs.map .lo) []).map (·.2),
+          List.range (fuseRefs store extra jg (sids.map .res ++ rs.map .lo) []).length) := by
+  obtain ⟨g, hg⟩ := foldl_stepSrc_ordered store extra jg sids rs
+  rw [fused_eq_fold, hg]
+  simp only [dictOf_values]
+  rfl
+
 end AgpTpf.ImpFuse
